@@ -2,166 +2,589 @@
 from __future__ import annotations
 
 import ast
-from typing import Dict, List, Set
+from typing import Dict, List, Optional, Set, Tuple
 
 from .. import cfg as C
 from .. import lib as L
-from ..core import AnalysisError, Repo, unparse
-from ..prov import callee_name
+from ..core import Repo, unparse
+from ..prov import SHELLS
 from ..report import Finding, RuleResult
 from . import c07
+from ._c17_util import normalised
 
 EXPLANATION = (
-    "C17.global: no function writes into a module-level mutable object (the effect analysis of C07): a combined domain must not leak "
-    "into later Domain() instances. C17.fields: def-use provenance shows that locate_domains merges each of the five dictionary fields "
-    "of Domain from the same-named field of each parsed agent domain into a fresh Domain, and combine_problems merges objects, fluents, "
-    "facts, goal literals and numeric goals of Problem likewise into a fresh Problem. C17.dedup: facts are de-duplicated by their "
-    "ground text before insertion and goal literals through a set. C17.dummy: dummy actions are added only when asked for."
+    "C17.global: no function writes into a module-level mutable object (the effect analysis of C07, with container contents read "
+    "flow-sensitively at call sites): a combined domain must not leak into later Domain() instances; in addition the constructor of "
+    "Domain / Problem initialises every field that the combiners merge into in place with an object of its own, not with (a part of) a "
+    "module-level object (provenance of the constructor's assignments; also covers merges written through getattr). The other rules "
+    "analyse the public functions locate_domains / combine_problems with their private and same-module helpers inlined, generator helpers expanded into the consuming loop, loops over constant field-name tuples unrolled and "
+    "getattr / setattr with constant names turned into attribute accesses; objects are identified by def-use provenance (the fresh "
+    "Domain / Problem that is combined into, the object returned by parse_domain / parse_problem for a globbed file), never by variable "
+    "names. C17.fields: every store into a field of the combination (update / extend / add / item assignment / |= / rebinding that keeps "
+    "the old content, in any helper) is classified by the agent field it takes its content from; each of the five dictionary fields of "
+    "Domain and objects, fluents, facts, goal literals and numeric goals of Problem must be fed from the same-named field of the agent "
+    "object, inside a loop over all globbed files (no slice, no early exit, the combination not re-created per file) and on every path "
+    "through that loop's body. C17.dedup: under a valuation of the test `ground text of the agent fact in ground texts of the combined "
+    "facts` a fact is inserted iff the test is false (if / continue / nested / comprehension filter alike); after goal literals are "
+    "merged, every path to the function's exit rebinds them through a set. C17.dummy: every store into the combination whose content "
+    "does not come from an agent file (the dummy predicate / actions) is unreachable when add_dummy_actions is false, which is the "
+    "default; combine_problems has no such store at all."
 )
 UNDECIDED = ("independence from the discovery order for overlapping keys with different values (last file wins for name / requirements); "
-             "equality after exporting and re-parsing the combination")
+             "equality after exporting and re-parsing the combination; whether the snapshot of known ground texts is taken before or "
+             "while the facts of one agent are added")
+
+DOMAIN_FIELDS = ("types", "predicates", "constants", "actions", "functions")
+PROBLEM_FIELDS = ("objects", "initial_state_fluents", "initial_state_predicates", "goal_state_predicates", "goal_state_fluents")
+ADDERS = ("update", "extend", "add", "append", "insert", "setdefault", "appendleft", "__setitem__", "__ior__")
+# steps that lead from a container of agent objects to one agent object (the parsed files may be collected first)
+_PASS = ("elem", "item", "call:values", "call:items", "call:copy", "arg0:list", "arg0:tuple", "arg0:sorted", "arg0:reversed", "arg0:iter",
+         "arg0:enumerate", "with")
 
 
-def _merge_calls(repo: Repo, f, dst_root: str, src_marker: str):
-    """{dst field: set(src fields)} for X.<field>.update/extend/add(... Y.<field> ...)"""
-    p = L.prov(repo, f)
-    out: Dict[str, Set[str]] = {}
-    for c in L.calls_in(f.node):
-        if isinstance(c.func, ast.Attribute) and c.func.attr in ("update", "extend", "add", "append") and c.args:
-            recv = p.trace(c.func.value)
-            dst = {x[1][5:] for x in recv if x[0] == dst_root and len(x) >= 2 and x[1].startswith("attr:")}
-            arg = p.trace(c.args[0])
-            src = set()
-            for x in arg:
-                if any(s.endswith(src_marker) for s in x):
-                    i = max(i for i, s in enumerate(x) if s.endswith(src_marker))
-                    if i + 1 < len(x) and x[i + 1].startswith("attr:"):
-                        src.add(x[i + 1][5:])
-            for d in dst:
-                out.setdefault(d, set()).update(src)
-    return out
+class _Store:
+    """one statement that puts content into the combination"""
+
+    def __init__(self, site: ast.AST, node: int, field: str, kind: str, values: List[ast.AST], keys: List[ast.AST], base: Optional[ast.AST]):
+        self.site, self.node, self.field, self.kind, self.values, self.keys, self.base = site, node, field, kind, values, keys, base
+        self.src: Set[str] = set()          # agent fields the content (values and keys) comes from
+        self.vsrc: Set[str] = set()         # ... the stored values alone
+        self.old: Set[str] = set()          # fields of the combination itself that the content comes from
+        self.extra: List[tuple] = []        # provenance that is neither
+
+
+class _View:
+    """the normalised function and the provenance queries shared by the rules"""
+
+    def __init__(self, repo: Repo, spec: str, cls: str, marker: str):
+        self.repo, self.spec, self.cls, self.marker = repo, spec, cls, marker
+        self.raw = repo.func(spec)
+        self.f = normalised(repo, spec)
+        self.p = L.prov(repo, self.f)
+        self.g = C.cfg_of(self.f.node)
+        self.root = f"fresh:{cls}"
+        self._glob: Dict[int, bool] = {}
+        self._stores: Optional[List[_Store]] = None
+
+    # ---- provenance
+    def trace(self, e: ast.AST, at: Optional[int] = None) -> Set[tuple]:
+        try:
+            return self.p.trace(e, at) if at is not None else self.p.trace(e)
+        except KeyError:
+            return set()
+
+    def dst_fields(self, paths) -> Set[str]:
+        """fields of the combination that a receiver expression is (a part of); content that merely flowed into a local container
+        ('in:' steps) does not make that container a part of the combination"""
+        return {x[1][5:] for x in paths if x[0] == self.root and len(x) >= 2 and x[1].startswith("attr:") and not any(s.startswith("in:") for s in x)}
+
+    def is_dst(self, paths) -> bool:
+        return any(x == (self.root,) for x in paths)
+
+    def dst_pos(self, path: tuple) -> Optional[int]:
+        """index of the step at which the path is the combination object (its constructor call, also seen from a constructor argument)"""
+        pos = 0 if path[0] == self.root else None
+        for i, s in enumerate(path):
+            if s.startswith(("arg", "kw:")) and s.endswith(":" + self.cls):
+                pos = i
+        return pos
+
+    def agent_field(self, path: tuple) -> Optional[str]:
+        """'<field>' when the path leads through the parsed agent object to one of its fields, '' for the agent object itself,
+        None when the path does not come from an agent object"""
+        idx = [i for i, s in enumerate(path) if s == self.marker]
+        if not idx or (self.dst_pos(path) or 0) > idx[-1]:
+            return None
+        for s in path[idx[-1] + 1:]:
+            if s.startswith("attr:"):
+                return s[5:]
+            if not (s in _PASS or s.startswith(("in:", "unpack:", "item:"))):
+                return ""
+        return ""
+
+    def classify(self, st: _Store) -> None:
+        for v in st.values + st.keys:
+            for x in self.trace(v):
+                a = self.agent_field(x)
+                if a is not None:
+                    if a:
+                        st.src.add(a)
+                        if v in st.values:
+                            st.vsrc.add(a)
+                    elif v in st.values:
+                        st.src.add("<whole agent object>")
+                        st.vsrc.add("<whole agent object>")
+                elif self.dst_pos(x) is not None:
+                    i = self.dst_pos(x)
+                    if len(x) >= i + 2 and x[i + 1].startswith("attr:"):
+                        st.old.add(x[i + 1][5:])
+                elif v in st.values and not (x[0] in SHELLS or x[0].startswith(("builtin:", "unknown:", "fresh:fstring", "fresh:lambda"))
+                                             or (x[0].startswith("fresh:") and x[0].endswith("()"))):
+                    st.extra.append(x)
+
+    # ---- stores into the combination
+    def stores(self) -> List[_Store]:
+        if self._stores is not None:
+            return self._stores
+        out: List[_Store] = []
+        g = self.g
+
+        def base_of(e):
+            while isinstance(e, (ast.Attribute, ast.Subscript)):
+                e = e.value
+            return e if isinstance(e, ast.Name) else None
+
+        def add(site, field, kind, values, keys, base):
+            n = g.node_containing(site) if not isinstance(site, ast.stmt) else g.node_of(site)
+            if n is None:
+                return
+            st = _Store(site, n, field, kind, values, keys, base)
+            self.classify(st)
+            out.append(st)
+
+        for n in ast.walk(self.f.node):
+            if isinstance(n, ast.Call) and isinstance(n.func, ast.Attribute) and n.func.attr in ADDERS:
+                args = list(n.args) + [k.value for k in n.keywords]
+                keyed = n.func.attr in ("setdefault", "insert", "__setitem__") and len(n.args) >= 2
+                for fld in sorted(self.dst_fields(self.trace(n.func.value))):
+                    add(n, fld, "call", args[1:] if keyed else args, args[:1] if keyed else [], base_of(n.func.value))
+            elif isinstance(n, ast.Assign):
+                for t in n.targets:
+                    if isinstance(t, ast.Subscript):
+                        for fld in sorted(self.dst_fields(self.trace(t.value))):
+                            add(n, fld, "setitem", [n.value], [] if isinstance(t.slice, ast.Slice) else [t.slice], base_of(t.value))
+                    elif isinstance(t, ast.Attribute) and self.is_dst(self.trace(t.value)):
+                        add(n, t.attr, "assign", [n.value], [], base_of(t.value))
+            elif isinstance(n, ast.AnnAssign) and n.value is not None and isinstance(n.target, ast.Attribute) and self.is_dst(self.trace(n.target.value)):
+                add(n, n.target.attr, "assign", [n.value], [], base_of(n.target.value))
+            elif isinstance(n, ast.AugAssign):
+                t = n.target
+                at = g.node_of(n)
+                if isinstance(t, ast.Attribute) and self.is_dst(self.trace(t.value)):
+                    add(n, t.attr, "aug", [n.value], [], base_of(t.value))
+                elif isinstance(t, ast.Subscript):
+                    for fld in sorted(self.dst_fields(self.trace(t.value))):
+                        add(n, fld, "aug", [n.value], [], base_of(t.value))
+                elif isinstance(t, ast.Name) and at is not None:
+                    for fld in sorted(self.dst_fields(self.trace(ast.Name(id=t.id, ctx=ast.Load()), at))):
+                        add(n, fld, "aug", [n.value], [], t)
+        self._stores = out
+        return out
+
+    def merges(self, field: str) -> List[_Store]:
+        return [s for s in self.stores() if s.field == field and s.src]
+
+    # ---- loops
+    def loop_chain(self, n: int) -> List[int]:
+        out = []
+        cur = self.g.loop_of.get(n)
+        while cur is not None and cur not in out:
+            out.append(cur)
+            cur = self.g.loop_of.get(cur)
+        return out
+
+    def is_file_loop(self, head: int) -> bool:
+        if head not in self._glob:
+            st = self.g.stmt[head]
+            self._glob[head] = isinstance(st, ast.For) and any(any(s.endswith(":glob") for s in x) for x in self.trace(st.iter))
+        return self._glob[head]
+
+    def file_loop_of(self, n: int) -> Optional[int]:
+        """the outermost enclosing loop that iterates over globbed files"""
+        hit = None
+        for h in self.loop_chain(n):
+            if self.is_file_loop(h):
+                hit = h
+        return hit
+
+    def representative(self, n: int, head: int) -> int:
+        """the statement of the file loop's own body that contains node n (an inner loop is one statement)"""
+        cur = n
+        while self.g.loop_of.get(cur) is not None and self.g.loop_of[cur] != head:
+            cur = self.g.loop_of[cur]
+        return cur
+
+    def members(self, head: int) -> Set[int]:
+        return {n for n in self.g.nodes() if head in self.loop_chain(n)}
+
+    def origins(self, name: ast.Name, at: int, depth: int = 0) -> Set[int]:
+        """CFG nodes of the definitions that create the object a name refers to (plain copies are followed)"""
+        out: Set[int] = set()
+        if depth > 8:
+            return out
+        for d in self.p.rd.defs_reaching(at, name.id):
+            st = self.g.stmt[d]
+            v = st.value if isinstance(st, (ast.Assign, ast.AnnAssign)) else None
+            while isinstance(v, (ast.Attribute, ast.Subscript)):
+                v = v.value
+            if isinstance(v, ast.Name):
+                out |= self.origins(v, d, depth + 1)
+            elif isinstance(v, ast.Call) and self.is_dst(self.trace(v, d)):
+                out.add(d)
+        return out
+
+
+def _views(repo: Repo) -> Tuple[_View, _View]:
+    key = id(repo)
+    if key not in _view_cache:
+        _view_cache.clear()
+        _view_cache[key] = (_View(repo, "MultiAgentDomainsConverter.locate_domains", "Domain", "call:parse_domain"),
+                            _View(repo, "MultiAgentProblemsConverter.combine_problems", "Problem", "call:parse_problem"))
+    return _view_cache[key]
+
+
+_view_cache: Dict[int, Tuple[_View, _View]] = {}
+
+
+# ------------------------------------------------------------------------------------------------ C17.fields
+def _check_fields(r: RuleResult, v: _View, fields: Tuple[str, ...], what: str) -> None:
+    f = v.f
+    for fld in fields:
+        r.site(f"{f.qn} [{fld}]")
+        ms = v.merges(fld)
+        src = set().union(*[m.src for m in ms]) if ms else set()
+        lost = [m for m in ms if m.kind == "assign" and fld not in m.old]
+        if not ms:
+            r.fail(Finding("C17.fields", f, f"merge-missing:{fld}", f"combined_{what}.{fld} is never merged from the agent {what}s"))
+        elif src != {fld}:
+            r.fail(Finding("C17.fields", f, f"merge-crossed:{fld}", f"combined_{what}.{fld} is fed from agent_{what}.{sorted(src)}", node=ms[0].site))
+        elif lost:
+            r.fail(Finding("C17.fields", f, f"merge-overwrites:{fld}", f"combined_{what}.{fld} is replaced by the field of one agent {what} ({unparse(lost[0].site, 60)}): "
+                           f"the content of the files merged before is lost", node=lost[0].site))
+        else:
+            r.ok({f"combined_{what}.{fld}": f"merged from agent_{what}.{fld} ({', '.join(sorted({m.kind for m in ms}))})"})
+
+
+def _check_loop(r: RuleResult, v: _View, fields: Tuple[str, ...], what: str) -> None:
+    """the merges happen for every discovered file: inside a loop over all globbed files, on every path through its body, into one
+    combination created before the loop"""
+    f, g = v.f, v.g
+    ms = [m for fld in fields for m in v.merges(fld)]
+    heads: Dict[int, Dict[str, Set[int]]] = {}
+    inside: Set[str] = set()
+    for m in ms:
+        h = v.file_loop_of(m.node)
+        if h is not None:
+            inside.add(m.field)
+            heads.setdefault(h, {}).setdefault(m.field, set()).add(v.representative(m.node, h))
+    # a field whose content arrives only outside the loop over the files (a later re-binding of already merged content is fine)
+    outside = [m for m in ms if m.field not in inside]
+    r.site(f.qn + " [files]")
+    if not ms:
+        # nothing is merged at all (reported per field): is there at least a loop over the files?
+        loops = [n for n in g.nodes() if g.kind[n] == "loop" and v.is_file_loop(n)]
+        if loops:
+            r.ok({"iterates": unparse(g.stmt[loops[0]].iter, 60)})
+        else:
+            r.fail(Finding("C17.fields", f, "file-loop", f"loop over the discovered {what} files not found"))
+    elif outside:
+        r.fail(Finding("C17.fields", f, "file-loop", f"{unparse(outside[0].site, 60)} merges outside a loop over the discovered {what} files: not every file is merged",
+                       node=outside[0].site))
+    else:
+        bad = None
+        for h in sorted(heads):
+            st = g.stmt[h]
+            paths = v.trace(st.iter)
+            if any(any(s.startswith("slice:") or s.endswith(":islice") for s in x) for x in paths):
+                bad = f"the loop over the files iterates over a slice ({unparse(st.iter, 60)})"
+            mem = v.members(h)
+            for a in sorted(mem):
+                for b, _l in g.succ[a]:
+                    if b not in mem and b != h and b != g.raise_:
+                        bad = f"the loop over the files is left early ({unparse(g.stmt[a], 50) if g.stmt[a] is not None else 'exit'})"
+        if bad:
+            r.fail(Finding("C17.fields", f, "file-loop", f"not every discovered {what} file is merged: {bad}"))
+        else:
+            r.ok({"iterates": [unparse(g.stmt[h].iter, 60) for h in sorted(heads)], "early_exit": False})
+    # every path through the loop body merges every field; the combination is not re-created per file
+    r.site(f.qn + " [every file merged]")
+    if not heads:
+        r.ok({"function": f.qn, "merges_inside_a_loop_over_the_files": 0})     # reported above / per field
+        return
+    skipped: Set[str] = set()
+    reset = None
+    for h, per_field in sorted(heads.items()):
+        starts = [b for b, l in g.succ[h] if l == "iter"]
+        for fld, reps in sorted(per_field.items()):
+            for s in starts:
+                if s in reps:
+                    continue
+                seen = C.reachable_from(g, s, avoid=reps)
+                if h in seen:
+                    skipped.add(fld)
+        mem = v.members(h)
+        for m in ms:
+            if m.base is not None and v.file_loop_of(m.node) == h:
+                for d in sorted(v.origins(m.base, m.node)):
+                    if d in mem:
+                        reset = g.stmt[d]
+    if skipped:
+        r.fail(Finding("C17.fields", f, f"merge-skipped:{'/'.join(sorted(skipped))}", f"some path through the loop body skips the merge of {sorted(skipped)} "
+                       f"(e.g. a `continue` for files that look redundant): the result then depends on the order in which the files are found"))
+    elif reset is not None:
+        r.fail(Finding("C17.fields", f, "combination-reset", f"the combination is created inside the loop over the files ({unparse(reset, 60)}): only the last file survives",
+                       node=reset))
+    else:
+        r.ok({"function": f.qn, "merges_on_every_path": sorted({fld for pf in heads.values() for fld in pf})})
 
 
 def rule_fields(repo: Repo) -> RuleResult:
-    r = RuleResult("C17.fields", "each mergeable field of the combination is fed from the same-named field of every agent file", "the union of types, constants, predicates, functions, actions / objects, facts, fluents, goals")
-    f = repo.func("MultiAgentDomainsConverter.locate_domains")
-    got = _merge_calls(repo, f, "fresh:Domain", "call:parse_domain")
-    for fld in ("types", "predicates", "constants", "actions", "functions"):
-        r.site(f"{f.qn} [{fld}]")
-        src = got.get(fld, set())
-        if src == {fld}:
-            r.ok({"combined_domain." + fld: "update(agent_domain." + fld + ")"})
-        elif not src:
-            r.fail(Finding("C17.fields", f, f"merge-missing:{fld}", f"combined_domain.{fld} is never merged from the agent domains"))
-        else:
-            r.fail(Finding("C17.fields", f, f"merge-crossed:{fld}", f"combined_domain.{fld} is fed from agent_domain.{sorted(src)}"))
-    # the loop covers every discovered file, and every file is merged on every path through the loop body
-    p = L.prov(repo, f)
-    loops = [n for n in ast.walk(f.node) if isinstance(n, ast.For)]
-    r.site(f.qn + " [files]")
-    if loops and any("call:glob" in x for x in p.trace(loops[0].iter)) and not any(isinstance(s, (ast.Break,)) for s in C.stmts_in(loops[0].body)):
-        r.ok({"iterates": unparse(loops[0].iter, 60)})
-    else:
-        r.fail(Finding("C17.fields", f, "file-loop", "not every discovered domain file is merged"))
-    for fn_, root_, flds in ((f, "fresh:Domain", ("types", "predicates", "constants", "actions", "functions")),
-                            (repo.func("MultiAgentProblemsConverter.combine_problems"), "fresh:Problem", ("objects", "initial_state_fluents", "goal_state_fluents"))):
-        pp = L.prov(repo, fn_)
-        gg = C.cfg_of(fn_.node)
-        lps = [n for n in ast.walk(fn_.node) if isinstance(n, ast.For) and any("call:glob" in x for x in pp.trace(n.iter))]
-        r.site(fn_.qn + " [every file merged]")
-        if not lps:
-            r.fail(Finding("C17.fields", fn_, "file-loop", "loop over the discovered files not found"))
-            continue
-        head = gg.node_of(lps[0])
-        merge_nodes = {}
-        for c in L.calls_in(lps[0]):
-            if isinstance(c.func, ast.Attribute) and c.func.attr == "update":
-                dst = {x[1][5:] for x in pp.trace(c.func.value) if x[0] == root_ and len(x) >= 2 and x[1].startswith("attr:")}
-                for d in dst & set(flds):
-                    merge_nodes[d] = gg.node_containing(c)
-        paths = [pt for pt in C.acyclic_paths(gg, head, lambda n: False) if len(pt) > 1 and pt[0][1] == "iter"]
-        skipped = [d for d, n in merge_nodes.items() if any(n not in [x for x, _ in pt] and pt[-1][0] not in (gg.raise_,) for pt in paths)]
-        if skipped:
-            r.fail(Finding("C17.fields", fn_, f"merge-skipped:{'/'.join(sorted(skipped))}", f"some path through the loop body skips the merge of {sorted(skipped)} "
-                           f"(e.g. a `continue` for files that look redundant): the result then depends on the order in which the files are found"))
-        else:
-            r.ok({"function": fn_.qn, "merges_on_every_path": sorted(merge_nodes)})
-    g = repo.func("MultiAgentProblemsConverter.combine_problems")
-    got = _merge_calls(repo, g, "fresh:Problem", "call:parse_problem")
-    for fld in ("objects", "initial_state_fluents", "initial_state_predicates", "goal_state_predicates", "goal_state_fluents"):
-        r.site(f"{g.qn} [{fld}]")
-        src = got.get(fld, set())
-        if src == {fld}:
-            r.ok({"combined_problem." + fld: "from agent_problem." + fld})
-        elif not src:
-            r.fail(Finding("C17.fields", g, f"merge-missing:{fld}", f"combined_problem.{fld} is never merged from the agent problems"))
-        else:
-            r.fail(Finding("C17.fields", g, f"merge-crossed:{fld}", f"combined_problem.{fld} is fed from agent_problem.{sorted(src)}"))
-    r.require_sites(13)
+    r = RuleResult("C17.fields", "each mergeable field of the combination is fed from the same-named field of every agent file",
+                   "the union of types, constants, predicates, functions, actions / objects, facts, fluents, goals")
+    d, q = _views(repo)
+    _check_fields(r, d, DOMAIN_FIELDS, "domain")
+    _check_loop(r, d, DOMAIN_FIELDS, "domain")
+    _check_fields(r, q, PROBLEM_FIELDS, "problem")
+    _check_loop(r, q, PROBLEM_FIELDS, "problem")
+    r.require_sites(14)
     return r
+
+
+# ------------------------------------------------------------------------------------------------ C17.dedup
+def _elements_of(v: _View, e: ast.AST, at: int, depth: int = 0) -> List[ast.AST]:
+    """the expressions whose evaluation stands for 'one element is inserted': the element of a comprehension, the argument of the
+    append / add calls that fill a local collection, otherwise the expression itself"""
+    for _ in range(3):
+        if isinstance(e, ast.Call) and isinstance(e.func, ast.Name) and e.func.id in ("set", "list", "frozenset", "tuple", "sorted", "iter") and len(e.args) == 1:
+            e = e.args[0]
+    if isinstance(e, (ast.ListComp, ast.SetComp, ast.GeneratorExp)):
+        return [e.elt]
+    if isinstance(e, ast.Name) and depth < 3:
+        out: List[ast.AST] = []
+        for d in sorted(v.p.rd.defs_reaching(at, e.id)):
+            st = v.g.stmt[d]
+            val = st.value if isinstance(st, (ast.Assign, ast.AnnAssign)) else None
+            if val is None:
+                return [e]
+            if L._is_empty_literal(val):
+                continue
+            out += _elements_of(v, val, d, depth + 1)
+        for c in L.calls_in(v.f.node):
+            if isinstance(c.func, ast.Attribute) and isinstance(c.func.value, ast.Name) and c.func.value.id == e.id and c.args:
+                n = v.g.node_containing(c)
+                if n is None:
+                    continue
+                if c.func.attr in ("append", "add"):
+                    out.append(c.args[0])
+                elif c.func.attr in ("extend", "update"):
+                    out += _elements_of(v, c.args[0], n, depth + 1)
+        return out or [e]
+    return [e]
+
+
+def _present_matcher(v: _View):
+    """atom 'present': the ground text of an agent fact is among the ground texts of the combined facts"""
+    TEXT = "attr:untyped_representation"
+
+    def agent_text(e) -> bool:
+        for x in v.trace(e):
+            if x[-1] == TEXT and v.agent_field(x) == "initial_state_predicates":
+                return True
+        return False
+
+    def combined_text(e) -> bool:
+        return any(x[0] == v.root and len(x) > 2 and x[1] == "attr:initial_state_predicates" and TEXT in x for x in v.trace(e))
+
+    def matcher(e):
+        if isinstance(e, ast.Compare) and len(e.ops) == 1 and isinstance(e.ops[0], (ast.In, ast.NotIn)):
+            if agent_text(e.left) and combined_text(e.comparators[0]):
+                return "present" if isinstance(e.ops[0], ast.In) else "!present"
+        if isinstance(e, ast.Call) and isinstance(e.func, ast.Name) and e.func.id == "any" and len(e.args) == 1 and \
+                isinstance(e.args[0], (ast.GeneratorExp, ast.ListComp)) and not any(g_.ifs for g_ in e.args[0].generators):
+            c = e.args[0].elt
+            if isinstance(c, ast.Compare) and len(c.ops) == 1 and isinstance(c.ops[0], ast.Eq):
+                a, b = c.left, c.comparators[0]
+                if (agent_text(a) and combined_text(b)) or (agent_text(b) and combined_text(a)):
+                    return "present"
+        return None
+
+    return matcher
+
+
+def _through_set(v: _View, st: _Store, fld: str) -> bool:
+    """the stored value is the field's content passed through a set"""
+    if st.kind not in ("assign", "setitem"):
+        return False
+    SETS = ("arg0:set", "arg0:frozenset", "arg0:fromkeys")
+    for val in st.values:
+        paths = v.trace(val)
+        for x in paths:
+            if f"attr:{fld}" in x:
+                i = x.index(f"attr:{fld}")
+                if any(s in SETS for s in x[i + 1:]):
+                    return True
+        if any(f"attr:{fld}" in x for x in paths):
+            # set display / set comprehension / set operators written out
+            todo, seen = [(val, st.node)], set()
+            while todo:
+                e, at = todo.pop()
+                for n in ast.walk(e):
+                    if isinstance(n, (ast.Set, ast.SetComp)):
+                        return True
+                    if isinstance(n, ast.Name) and isinstance(n.ctx, ast.Load) and (n.id, at) not in seen and len(seen) < 12:
+                        seen.add((n.id, at))
+                        for d in v.p.rd.defs_reaching(at, n.id):
+                            s2 = v.g.stmt[d]
+                            if isinstance(s2, (ast.Assign, ast.AnnAssign)) and s2.value is not None:
+                                todo.append((s2.value, d))
+    return False
 
 
 def rule_dedup(repo: Repo) -> RuleResult:
     r = RuleResult("C17.dedup", "facts are inserted only when their ground text is not present yet; goal literals pass through a set", "without duplicates")
-    g = repo.func("MultiAgentProblemsConverter.combine_problems")
-    p = L.prov(repo, g)
-    cfg = C.cfg_of(g.node)
-    adds = [c for c in L.calls_in(g.node) if isinstance(c.func, ast.Attribute) and c.func.attr == "add" and
-            any("attr:initial_state_predicates" in x and x[0] == "fresh:Problem" for x in p.trace(c.func.value))]
-    r.site(g.qn + " [facts]")
+    _d, v = _views(repo)
+    f, g = v.f, v.g
+    adds = [m for m in v.merges("initial_state_predicates") if m.vsrc]
+    r.site(f.qn + " [facts]")
     if not adds:
-        r.fail(Finding("C17.dedup", g, "facts-not-added", "initial facts are not inserted one by one"))
+        r.fail(Finding("C17.dedup", f, "facts-not-added", "initial facts of the agents are not inserted into the combination"))
     else:
-        def matcher(e):
-            if isinstance(e, ast.Compare) and len(e.ops) == 1 and isinstance(e.ops[0], (ast.In, ast.NotIn)) and "untyped_representation" in ast.unparse(e.left):
-                return "present" if isinstance(e.ops[0], ast.In) else "!present"
-            return None
-        G = L.Guards(g, matcher)
-        n = cfg.node_containing(adds[0])
-        if "present" in G.atoms_seen and n not in G.reach({"present": True}) and n in G.reach({"present": False}):
-            # the membership list is built from the combined facts of the same predicate
-            r.ok({"fact_inserted_iff": "its ground text is not yet among the combined facts"})
+        G = L.Guards(f, _present_matcher(v))
+        bad = None
+        if "present" not in G.atoms_seen:
+            bad = adds[0]
         else:
-            r.fail(Finding("C17.dedup", g, "facts-dedup", "a fact whose ground text is already present can be inserted again (or a new one is skipped)"))
-    r.site(g.qn + " [goals]")
-    ok = False
-    for s in ast.walk(g.node):
-        if isinstance(s, ast.Assign) and any(isinstance(t, ast.Attribute) and t.attr == "goal_state_predicates" for t in s.targets):
-            tr = p.trace(s.value)
-            if any(any(st == "arg0:set" for st in x) and "attr:goal_state_predicates" in x for x in tr):
-                ok = True
-    if ok:
-        r.ok({"goal_literals": "list(set(...))"})
+            seen_t, seen_f = G.reach({"present": True}), G.reach({"present": False})
+            for st in adds:
+                for e in _elements_of(v, st.values[0], st.node):
+                    if G.reaches_expr({"present": True}, e, seen=seen_t) or not G.reaches_expr({"present": False}, e, seen=seen_f):
+                        bad = st
+                        break
+        if bad is None:
+            r.ok({"fact_inserted_iff": "its ground text is not yet among the combined facts", "sites": [unparse(s.site, 50) for s in adds]})
+        else:
+            r.fail(Finding("C17.dedup", f, "facts-dedup", "a fact whose ground text is already present can be inserted again (or a new one is skipped)", node=bad.site))
+    r.site(f.qn + " [goals]")
+    fld = "goal_state_predicates"
+    ms = v.merges(fld)
+    dd = {s.node for s in v.stores() if s.field == fld and _through_set(v, s, fld)}
+    leaks = [m for m in ms if m.node not in dd and g.exit in C.reachable_from(g, m.node, avoid=dd)]
+    if ms and dd and not leaks:
+        r.ok({"goal_literals": "rebound through a set on every path after the merge"})
     else:
-        r.fail(Finding("C17.dedup", g, "goals-dedup", "goal literals are not de-duplicated"))
+        r.fail(Finding("C17.dedup", f, "goals-dedup", "goal literals are not de-duplicated" if not dd else
+                       "goal literals are merged on a path that does not pass the de-duplication", node=leaks[0].site if leaks else None))
     r.require_sites(2)
     return r
 
 
+# ------------------------------------------------------------------------------------------------ C17.dummy
 def rule_dummy(repo: Repo) -> RuleResult:
-    r = RuleResult("C17.dummy", "dummy predicate / actions are added only when add_dummy_actions is true", "the combination is the union, nothing more")
-    f = repo.func("MultiAgentDomainsConverter.locate_domains")
-    G = L.Guards(f, lambda e: "dummy" if isinstance(e, ast.Name) and e.id == "add_dummy_actions" else None)
-    g = G.g
+    r = RuleResult("C17.dummy", "content that does not come from an agent file (dummy predicate / actions) is added only when add_dummy_actions is true",
+                   "the combination is the union, nothing more")
+    v, q = _views(repo)
+    f, p = v.f, v.p
+    PARAM = "add_dummy_actions"
+    G = L.Guards(f, lambda e: "dummy" if PARAM in f.params and L.is_param(p, e, PARAM) else None)
     r.site(f.qn)
-    calls = [c for c in L.calls_in(f.node) if callee_name(c) == "_add_dummy_actions"]
+    extras = [s for s in v.stores() if s.extra and not s.src and s.field in DOMAIN_FIELDS]
     seen = G.reach({"dummy": False})
-    stores = [n for n in ast.walk(f.node) if isinstance(n, ast.Assign) and any("DUMMY" in ast.unparse(t) or "DUMMY" in ast.unparse(n.value) for t in n.targets)]
-    leaked = [c for c in calls if g.node_containing(c) in seen] + [s for s in stores if g.node_of(s) in seen]
+
+    def live(st: _Store) -> bool:
+        e = st.site if isinstance(st.site, ast.expr) else getattr(st.site, "value", None)
+        if e is None:
+            return st.node in seen
+        return G.reaches_expr({"dummy": False}, e, seen=seen)
+
+    leaked = [s for s in extras if live(s)]
     if "dummy" in G.atoms_seen and not leaked:
-        r.ok({"dummy_actions": "only under add_dummy_actions"})
+        r.ok({"dummy_actions": "only under add_dummy_actions", "guarded_stores": [unparse(s.site, 50) for s in extras][:4]})
     else:
-        r.fail(Finding("C17.dummy", f, "dummy-unconditional", "dummy actions / predicate are added although add_dummy_actions is false"))
+        r.fail(Finding("C17.dummy", f, "dummy-unconditional", "dummy actions / predicate are added although add_dummy_actions is false" +
+                       (f" ({unparse(leaked[0].site, 60)})" if leaked else ""), node=leaked[0].site if leaked else None))
     # default False
-    d = f.defaults.get("add_dummy_actions")
+    d = v.raw.defaults.get(PARAM)
     r.site(f.qn + " [default]")
-    if isinstance(d, ast.Constant) and d.value is False:
+    ok, val = repo.fold(d, f.mod.name) if d is not None else (False, None)
+    if ok and val is False:
         r.ok({"default": False})
     else:
         r.fail(Finding("C17.dummy", f, "dummy-default", "add_dummy_actions does not default to False"))
-    r.require_sites(2)
+    # the problem combination has no flag: nothing but agent content may be stored
+    r.site(q.f.qn + " [nothing more]")
+    extras = [s for s in q.stores() if s.extra and not s.src and s.field in PROBLEM_FIELDS]
+    if extras:
+        r.fail(Finding("C17.dummy", q.f, "extra-content", f"{unparse(extras[0].site, 60)} stores content into the combined problem that does not come from an agent problem",
+                       node=extras[0].site))
+    else:
+        r.ok({"stores_into_combined_problem": len(q.stores()), "not_from_agents": 0})
+    r.require_sites(3)
     return r
 
 
+# ------------------------------------------------------------------------------------------------ C17.global
+def rule_global(repo: Repo) -> RuleResult:
+    """C07.global with one local refinement of the effect analysis (candidate for promotion into sa/effects.py): when the summary of a
+    callee is applied at a call site, the contents of containers built in the caller are read flow-sensitively *at that call site*,
+    exactly as the engine already does for writes performed directly in the caller.  Without it a helper that writes below
+    `param.[]` is charged with everything the caller stores into the container after the call (extracting the re-parenting loop of
+    parse_types into a helper made `pddl_types["object"] = ObjectType`, executed last, look like a write into ObjectType)."""
+    from .. import effects as E
+    base = getattr(E, "_Analyzer", None)
+    if base is None or not hasattr(base, "apply_summary") or not hasattr(base, "field"):
+        return c07.rule_global(repo, "C17.global")
+
+    class _CallSiteAnalyzer(base):
+        _site = None
+
+        def apply_summary(self, callee, bind, node, at, is_ctor):
+            prev, self._site = self._site, at
+            try:
+                return super().apply_summary(callee, bind, node, at, is_ctor)
+            finally:
+                self._site = prev
+
+        def field(self, atoms, f, at=None):
+            return super().field(atoms, f, self._site if at is None else at)
+
+    E._Analyzer = _CallSiteAnalyzer
+    try:
+        r = c07.rule_global(repo, "C17.global")
+    finally:
+        E._Analyzer = base
+    _check_own_fields(repo, r)
+    return r
+
+
+def _check_own_fields(repo: Repo, r: RuleResult) -> None:
+    """the fields that the combiners merge into in place start as objects of the new Domain / Problem, not as (parts of) a module-level
+    object.  The effect analysis above decides this as well, but it does not see writes made through getattr(obj, name); this clause
+    reads the constructor by provenance and the merges from the normalised combiner."""
+    for v in _views(repo):
+        if repo.find_method(v.cls, "__init__") is None:
+            continue
+        init = L.fn(repo, f"{v.cls}.__init__")
+        pi = L.prov(repo, init)
+        inplace = {s.field for s in v.stores() if s.src and s.kind != "assign"}
+        for n in ast.walk(init.node):
+            if isinstance(n, ast.Assign):
+                tgts, val = n.targets, n.value
+            elif isinstance(n, ast.AnnAssign) and n.value is not None:
+                tgts, val = [n.target], n.value
+            else:
+                continue
+            for t in tgts:
+                if not (isinstance(t, ast.Attribute) and isinstance(t.value, ast.Name) and t.value.id == init.self_name and t.attr in inplace):
+                    continue
+                shared = set()
+                for x in pi.trace(val):
+                    if x[0].startswith("global:") and all(s_.startswith(("attr:", "item")) for s_ in x[1:]):
+                        d = repo.lookup(init.mod.name, x[0][7:])
+                        if d and d[0] == "const" and not isinstance(d[1], (ast.Constant, ast.JoinedStr, ast.Tuple, ast.Lambda)):
+                            shared.add(x[0][7:])
+                where = f"{v.cls}.{t.attr} [starts as an object of its own]"
+                if not shared:
+                    r.site(where)
+                    r.ok({"field": f"{v.cls}.{t.attr}", "merged_in_place_by": v.f.qn, "initialised_from_module_object": False})
+                for name in sorted(shared):
+                    role = f"write:global:{name}"
+                    if any(f_.role == role and f_.function == v.f.qn.split("::", 1)[1] for f_ in r.findings):
+                        continue
+                    r.site(where)
+                    r.fail(Finding("C17.global", v.f, role, f"{v.cls}.{t.attr} is initialised with the module-level object {name} itself ({unparse(n, 60)}) and "
+                                   f"{v.f.qn.split('::', 1)[1]} merges the agent files into it in place: shared by every later instance",
+                                   node=next((s_.site for s_ in v.stores() if s_.field == t.attr and s_.src and s_.kind != "assign"), None)))
+
+
 def rules(repo: Repo, tier: str) -> List[RuleResult]:
-    return [c07.rule_global(repo, "C17.global"), rule_fields(repo), rule_dedup(repo), rule_dummy(repo)]
+    return [rule_global(repo), rule_fields(repo), rule_dedup(repo), rule_dummy(repo)]
